@@ -133,7 +133,11 @@ class Universe:
                 extra["metavar"] = f["metavar"]
             if f.get("init") is False:
                 kw["init"] = False
-            if extra:
+            if f.get("decl") == "flag":
+                # the documented helper for bool fields (simple_parsing.helpers.flag): same field, other declaration
+                from simple_parsing.helpers import flag as sp_flag
+                fld = sp_flag(**kw, **extra)
+            elif extra:
                 fld = sp_field(**kw, **extra)
             else:
                 fld = dataclasses.field(**kw)
